@@ -737,3 +737,41 @@ V("C19-not-readonly-allowed","C19",EN+"evacuate.go","""		if !sh.GetMode().ReadOn
 			e.mtx.RUnlock()
 			return 0, shard.ErrMustBeReadOnly
 		}""",rule="C19.R4")
+
+# ---- C20
+V("C20-removed-verdict-as-failure","C20",EN+"get.go","""				errors.Is(err, ierrors.ErrParentObject),
+				errors.Is(err, apistatus.ErrObjectAlreadyRemoved),
+				errors.Is(err, apistatus.ErrObjectOutOfRange):""","""				errors.Is(err, ierrors.ErrParentObject),
+				errors.Is(err, apistatus.ErrObjectOutOfRange):""",rule="C20.R2")
+V("C20-shard-failure-ends-search","C20",EN+"get.go","""			default:
+				e.reportShardError(sh, "could not get object from shard", err)
+				continue
+			}""","""			default:
+				e.reportShardError(sh, "could not get object from shard", err)
+				return err
+			}""",rule="C20.R2")
+V("C20-first-pass-always-bypass","C20",EN+"get.go","		err := shardFunc(sh.Shard, noMeta)","		err := shardFunc(sh.Shard, noMeta || hasDegraded)",rule="C20.R1")
+V("C20-fallback-break-on-error","C20",EN+"get.go","""		if errors.Is(err, apistatus.ErrObjectOutOfRange) {
+			return err
+		}
+		if err == nil {""","""		if errors.Is(err, apistatus.ErrObjectOutOfRange) {
+			return err
+		}
+		if err != nil && !errors.Is(err, apistatus.ErrObjectNotFound) {
+			break
+		}
+		if err == nil {""",rule="C20.R3")
+V("C20-getbytes-direct","C20",EN+"get.go","""	err = e.get(addr, func(s *shard.Shard, ignoreMetadata bool) error {
+		if ignoreMetadata {
+			b, err = s.GetBytes(addr)
+		} else {
+			b, err = s.GetBytesWithMetadataLookup(addr)
+		}
+		return err
+	})
+	return b, err""","""	for _, sh := range e.sortedShards(addr.Object()) {
+		if b, err = sh.GetBytesWithMetadataLookup(addr); err == nil {
+			return b, nil
+		}
+	}
+	return b, err""",rule="C20.R4")
